@@ -71,11 +71,18 @@ func UnitFromProto(protoUnit *pb.PropellerUnit) (Unit, error) {
 	// validate that all shard length is the same
 	// todo(rdr): What other validations should I do?
 	// todo(rdr): Should I do these validations here?
+	if len(shards) == 0 {
+		return Unit{}, errors.New("unit has no shards")
+	}
 	shardLen := len(shards[0])
-	for i := range shards[1:] {
-		if len(shards[i]) != shardLen {
+	for _, shard := range shards[1:] {
+		if len(shard) != shardLen {
 			return Unit{}, errors.New("unit has shards of different length")
 		}
+	}
+
+	if len(protoUnit.MerkleRoot.GetElements()) != len(MessageRoot{}) {
+		return Unit{}, errors.New("unit has a malformed merkle root")
 	}
 
 	siblings := make([]merkle.Hash, len(protoUnit.MerkleProof.GetSiblings()))
